@@ -2,6 +2,7 @@ import HcipyVerif.Lemmas.GridMut
 import HcipyVerif.Lemmas.GridHeap
 import HcipyVerif.Lemmas.GridOld
 import HcipyVerif.Lemmas.GridLayout
+import HcipyVerif.Lemmas.GridShare
 
 /-!
 # C10 — Grid identity: equality is an equivalence consistent with hashing
@@ -268,6 +269,99 @@ theorem shiftF_not_absorbed :
 example : (Coords.separated [[0, 1], [5]]).axisHas 0 1 := ⟨[0, 1], rfl, by simp⟩
 example : (Coords.regular [⟨1 / 2, 3, 0⟩]).axisAsym 0 := ⟨⟨1 / 2, 3, 0⟩, rfl, by norm_num⟩
 
+/-- **Equal grids have the same number of axes** (and the same number of points and the same coordinate
+kind): `==` is never a comparison of a common prefix of the axes. -/
+theorem eq_imp_same_ndim (a b : Grid) (h : a.eq b = true) :
+    a.coords.ndim = b.coords.ndim ∧ a.coords.size = b.coords.size ∧ a.coords.kind = b.coords.kind := by
+  refine ⟨?_, ?_, ?_⟩
+  · by_contra hn; rw [ne_of_ndim_ne a b hn] at h; exact absurd h (by decide)
+  · by_contra hn; rw [ne_of_size_ne a b hn] at h; exact absurd h (by decide)
+  · by_contra hn; rw [ne_of_kind_ne a b hn] at h; exact absurd h (by decide)
+
+/-- The projection of a point cloud is not the cloud: an unstructured grid and the grid with one more
+column (same point count, same leading columns) are unequal, in both orders. -/
+theorem prefix_axes_ne (s : System) (cols : List (List Rat)) (z : List Rat) (w w' : Weights) :
+    (Grid.mk s (.unstructured cols) w).eq (Grid.mk s (.unstructured (cols ++ [z])) w') = false ∧
+    (Grid.mk s (.unstructured (cols ++ [z])) w').eq (Grid.mk s (.unstructured cols) w) = false := by
+  constructor <;> apply ne_of_ndim_ne <;> simp [Coords.ndim]
+
+/-! ## Sharing at the level of the `Coords` object (Model/GridShare.lean, executed by the driver) -/
+
+/-- **Every holder of the `Coords` object follows a write through it** — whichever holder (or the caller)
+made it: afterwards it reads the new coordinates, with its own coordinate system and weights. -/
+theorem shared_holders_follow (grids : Store) (cell : List Nat) (c : Nat) (co : Coords) (j : Nat) (g : Grid)
+    (hc : cell[j]? = some c) (hg : grids[j]? = some g) :
+    (shareCoords grids cell c co)[j]? = some { g with coords := co } := by
+  simp [shareCoords_getElem?, hc, hg]
+
+/-- Grids on other `Coords` objects (copies, pickles, round trips, `scaled` …) are untouched. -/
+theorem other_cells_untouched (grids : Store) (cell : List Nat) (c : Nat) (co : Coords) (j : Nat)
+    (hc : cell[j]? ≠ some c) : (shareCoords grids cell c co)[j]? = grids[j]? := by
+  rw [shareCoords_getElem?]; cases grids[j]? <;> simp [hc]
+
+/-- **After a write through a shared `Coords` object, equality and hashing agree on all its holders**:
+two holders with the same coordinate system are equal and have the same hash input; holders with different
+systems are unequal (`PolarGrid(g.coords)` against `g`). -/
+theorem shared_holders_eq_hash (grids : Store) (cell : List Nat) (c : Nat) (co : Coords) (j k : Nat) (g h : Grid)
+    (hw : co.WF) (hj : cell[j]? = some c) (hk : cell[k]? = some c) (hg : grids[j]? = some g) (hh : grids[k]? = some h) :
+    ∃ g' h', (shareCoords grids cell c co)[j]? = some g' ∧ (shareCoords grids cell c co)[k]? = some h' ∧
+      g'.coords = co ∧ h'.coords = co ∧
+      (g.system = h.system → g'.eq h' = true ∧ g'.hashInput = h'.hashInput) ∧
+      (g.system ≠ h.system → g'.eq h' = false) := by
+  refine ⟨_, _, shared_holders_follow grids cell c co j g hj hg, shared_holders_follow grids cell c co k h hk hh, rfl, rfl, ?_, ?_⟩
+  · intro hs
+    have he : ({ g with coords := co } : Grid).eq { h with coords := co } = true := by
+      have := eq_refl { g with coords := co } hw
+      simpa [Grid.eq, hs] using this
+    exact ⟨he, eq_imp_hashInput_eq _ _ he⟩
+  · intro hs; exact ne_of_system_ne _ _ hs
+
+example : (Coords.separated [[0, 1], [5]]).WF := by decide
+
+/-- **Coherence is re-established by the propagation**: if all grids other than the writer `i` that share a
+`Coords` object agree, then after slot `i`'s coordinates are propagated to the holders of its object, *all*
+grids that share an object read the same coordinates. -/
+theorem shareCoords_coherent (grids : Store) (cell : List Nat) (i c : Nat) (gi : Grid)
+    (hi : cell[i]? = some c) (hgi : grids[i]? = some gi)
+    (hco : ∀ j k g h, j ≠ i → k ≠ i → cell[j]? = cell[k]? → cell[j]? ≠ none → grids[j]? = some g → grids[k]? = some h →
+      g.coords = h.coords) :
+    Coherent (shareCoords grids cell c gi.coords) cell := by
+  intro j k g h hjk hn hg hh
+  rw [shareCoords_getElem?] at hg hh
+  cases hgj : grids[j]? with
+  | none => simp [hgj] at hg
+  | some g0 =>
+    cases hgk : grids[k]? with
+    | none => simp [hgk] at hh
+    | some h0 =>
+      simp only [hgj, hgk, Option.map_some, Option.some.injEq] at hg hh
+      by_cases hc : cell[j]? = some c
+      · have hc' : cell[k]? = some c := hjk ▸ hc
+        rw [if_pos hc] at hg; rw [if_pos hc'] at hh
+        rw [← hg, ← hh]
+      · have hc' : ¬ cell[k]? = some c := hjk ▸ hc
+        rw [if_neg hc] at hg; rw [if_neg hc'] at hh
+        subst hg; subst hh
+        have hji : j ≠ i := fun e => hc (e ▸ hi)
+        have hki : k ≠ i := fun e => hc' (e ▸ hi)
+        exact hco j k _ _ hji hki hjk hn hgj hgk
+
+example : Coherent (shareCoords [⟨.cartesian, .separated [[0, 2]], .none⟩] [0] 0 (.separated [[0, 2]])) [0] :=
+  shareCoords_coherent _ _ 0 0 ⟨.cartesian, .separated [[0, 2]], .none⟩ rfl rfl (by
+    intro j k g h hj _ _ _ hg _
+    match j, hj, hg with
+    | j + 1, _, hg => simp at hg)
+
+/-- **A memoised hash that is dropped by the grid's own API only goes stale** (the defect class, proved
+counterexample): `b` is hashed, then another holder of the same `Coords` object scales it; `b` follows, is
+equal to a freshly built grid with the same coordinates, and answers the old hash. -/
+theorem Bad.memo_hash_stale :
+    ∃ (b : Bad.MGrid) (co : Coords), co.WF ∧
+      let b1 := (b.hash).2.follow co
+      let fresh : Bad.MGrid := { grid := { b.grid with coords := co } }
+      b1.grid.eq fresh.grid = true ∧ (b1.hash).1 ≠ (fresh.hash).1 :=
+  ⟨{ grid := ⟨.cartesian, .separated [[0, 1]], .none⟩ }, .separated [[0, 2]], by decide, by decide⟩
+
 /-! ## Value semantics of the store: earlier copies are untouched -/
 
 /-- An in-place operation on slot `i` leaves every other live grid as it was. -/
@@ -344,6 +438,189 @@ theorem world_frame (w w' : World) (toks : List String) (out : String)
   · simp only [Option.map_eq_some_iff, Prod.mk.injEq] at h
     obtain ⟨⟨st', o⟩, hs, rfl, _⟩ := h
     exact stepStore_frame w.grids st' _ o hs hr
+
+/-! ## The invariant of the `Coords`-sharing world the driver executes (`stepShare`) -/
+
+/-- `Grid(g.coords)` keeps the invariant: the new holder reads the coordinates of the object it was built on -/
+theorem share_on_inv (s s' : SWorld) (i : Nat) (sys : System) (hi : s.Inv) (h : s.on i sys = some s') : s'.Inv := by
+  unfold SWorld.on at h
+  split at h
+  · rename_i g c hg hc
+    simp only [Option.some.injEq] at h
+    subst h
+    have hcm : c < s.next := hi.lt c (List.mem_of_getElem? hc)
+    refine ⟨by simp [Store.push, hi.len], ?_, ?_⟩
+    · intro d hd
+      simp only [List.mem_append, List.mem_singleton] at hd
+      rcases hd with hd | hd
+      · exact hi.lt d hd
+      · rw [hd]; exact hcm
+    · -- the new grid reads the coordinates of slot `i`, whose cell it holds
+      have key : ∀ (j : Nat) (g' : Grid), (s.world.grids.push ⟨sys, g.coords, .none⟩)[j]? = some g' → (s.cell ++ [c])[j]? ≠ none →
+          ∃ (j0 : Nat) (g0 : Grid), s.world.grids[j0]? = some g0 ∧ s.cell[j0]? = (s.cell ++ [c])[j]? ∧ g0.coords = g'.coords := by
+        intro j g' hg' hn
+        by_cases hj : j < s.world.grids.length
+        · refine ⟨j, g', ?_, ?_, rfl⟩
+          · rw [← hg']; simp [Store.push, List.getElem?_append_left hj]
+          · rw [List.getElem?_append_left (by rw [hi.len]; exact hj)]
+        · have hj' : j = s.world.grids.length := by
+            by_contra hne
+            rw [List.getElem?_eq_none (by simp [Store.push]; omega)] at hg'
+            exact absurd hg' (by simp)
+          refine ⟨i, g, hg, ?_, ?_⟩
+          · rw [hj', ← hi.len]; simp [hc]
+          · rw [hj'] at hg'; simp [Store.push] at hg'; rw [← hg']
+      intro j k g1 g2 hjk hn h1 h2
+      obtain ⟨j0, a, ha, hca, hea⟩ := key j g1 h1 hn
+      obtain ⟨k0, b, hb, hcb, heb⟩ := key k g2 h2 (hjk ▸ hn)
+      rw [← hea, ← heb]
+      exact hi.coh j0 k0 a b (by rw [hca, hcb, hjk]) (by rw [hca]; exact hn) ha hb
+  · exact absurd h (by simp)
+
+/-- a write to the `Coords` object itself keeps the invariant -/
+theorem share_cedit_inv (s s' : SWorld) (i : Nat) (f : Coords → Coords) (hi : s.Inv) (h : s.cedit i f = some s') : s'.Inv := by
+  unfold SWorld.cedit at h
+  split at h
+  · simp only [Option.some.injEq] at h
+    subst h
+    exact ⟨by simp [shareCoords_length, hi.len], hi.lt, shareCoords_keeps_coherent _ _ _ _ hi.coh⟩
+  · exact absurd h (by simp)
+
+
+/-- the changed slot wrote through its `Coords` object: after the propagation the invariant holds again -/
+theorem share_propagate_inv (s : SWorld) (i : Nat) (hl : s.cell.length = s.world.grids.length) (hlt : ∀ c ∈ s.cell, c < s.next)
+    (hco : CohEx (some i) s.world.grids s.cell) : (s.propagate i).Inv := by
+  unfold SWorld.propagate
+  split
+  · rename_i g c hg hc
+    refine ⟨by simp [shareCoords_length, hl], hlt, ?_⟩
+    exact shareCoords_coherent _ _ i c g hc hg (fun j k a b hj hk => hco j k a b (by simpa using hj) (by simpa using hk))
+  · rename_i hno
+    have hgi : s.world.grids[i]? = none := by
+      cases hg : s.world.grids[i]? with
+      | none => rfl
+      | some g =>
+        cases hc : s.cell[i]? with
+        | some c => exact absurd hc (hno g c hg)
+        | none =>
+          have h1 : i < s.world.grids.length := (List.getElem?_eq_some_iff.mp hg).1
+          have h2 : s.cell.length ≤ i := by
+            by_contra hlt'; rw [List.getElem?_eq_getElem (by omega)] at hc; exact absurd hc (by simp)
+          omega
+    refine ⟨hl, hlt, ?_⟩
+    intro j k a b hjk hn ha hb
+    have hj : j ≠ i := by intro e; rw [e, hgi] at ha; exact absurd ha (by simp)
+    have hk : k ≠ i := by intro e; rw [e, hgi] at hb; exact absurd hb (by simp)
+    exact hco j k a b (by simpa using hj) (by simpa using hk) hjk hn ha hb
+
+/-- the changed slot got a `Coords` object of its own: the invariant holds again -/
+theorem share_rebind_inv (s : SWorld) (i : Nat) (hl : s.cell.length = s.world.grids.length) (hlt : ∀ c ∈ s.cell, c < s.next)
+    (hco : CohEx (some i) s.world.grids s.cell) : (s.rebind i).Inv := by
+  refine ⟨by simp [SWorld.rebind, hl], ?_, ?_⟩
+  · intro c hc
+    simp only [SWorld.rebind] at hc ⊢
+    rcases List.mem_or_eq_of_mem_set hc with hc | hc
+    · have := hlt c hc; omega
+    · omega
+  · intro j k a b hjk hn ha hb
+    simp only [SWorld.rebind] at hjk hn ha hb
+    rw [List.getElem?_set] at hjk hn
+    rw [List.getElem?_set] at hjk
+    by_cases hj : i = j <;> by_cases hk : i = k
+    · subst hj; subst hk; rw [ha] at hb; simp at hb; rw [hb]
+    · rw [if_pos hj, if_neg hk] at hjk
+      rw [if_pos hj] at hn
+      split at hjk
+      · cases hck : s.cell[k]? with
+        | none => rw [hck] at hjk; exact absurd hjk (by simp)
+        | some c =>
+          rw [hck] at hjk; simp at hjk
+          have := hlt c (List.mem_of_getElem? hck); omega
+      · rename_i hlt'; rw [if_neg hlt'] at hn; exact absurd rfl hn
+    · rw [if_neg hj, if_pos hk] at hjk
+      rw [if_neg hj] at hn
+      split at hjk
+      · cases hcj : s.cell[j]? with
+        | none => exact absurd hcj hn
+        | some c =>
+          rw [hcj] at hjk; simp at hjk
+          have := hlt c (List.mem_of_getElem? hcj); omega
+      · exact absurd hjk hn
+    · rw [if_neg hj, if_neg hk] at hjk
+      rw [if_neg hj] at hn
+      exact hco j k a b (by simpa using Ne.symm hj) (by simpa using Ne.symm hk) hjk hn ha hb
+
+/-- **Every request the driver executes keeps the invariant** (`stepShare`, all requests: the whole value-store protocol,
+`on`, `cedit`, `reset`). -/
+theorem share_step_inv (s s' : SWorld) (toks : List String) (out : String) (hi : s.Inv)
+    (h : stepShare s toks = some (s', out)) : s'.Inv := by
+  unfold stepShare at h
+  split at h
+  · simp only [Option.some.injEq, Prod.mk.injEq] at h; rw [← h.1]; exact inv_empty
+  · simp only [Option.some.injEq, Prod.mk.injEq] at h; rw [← h.1]; exact hi
+  · simp only [bind, Option.bind_eq_some_iff] at h
+    obtain ⟨i, _, sys, _, h⟩ := h
+    split at h
+    · rename_i s2 hs2
+      simp only [pure, Option.some.injEq, Prod.mk.injEq] at h; rw [← h.1]; exact share_on_inv s s2 i sys hi hs2
+    · simp only [pure, Option.some.injEq, Prod.mk.injEq] at h; rw [← h.1]; exact hi
+  · simp only [bind, Option.bind_eq_some_iff] at h
+    obtain ⟨i, _, f, _, h⟩ := h
+    split at h
+    · rename_i s2 hs2
+      simp only [pure, Option.some.injEq, Prod.mk.injEq] at h; rw [← h.1]; exact share_cedit_inv s s2 i f hi hs2
+    · simp only [pure, Option.some.injEq, Prod.mk.injEq] at h; rw [← h.1]; exact hi
+  · rename_i hnr _ _ _
+    simp only [Option.map_eq_some_iff] at h
+    obtain ⟨r, hr, h⟩ := h
+    have hne : toks ≠ ["reset"] := fun e => hnr e
+    have hf := world_frame s.world r.1 toks r.2 hr hne
+    have hce := cohEx_of_frame s.world.grids r.1.grids s.cell hi.len hi.coh hf
+    obtain ⟨h1, h2, h3⟩ := sync_inv r.1.grids s.cell s.next _ hi.lt hce
+    split at h
+    · rename_i i hci
+      rw [hci] at h3
+      simp only [Prod.mk.injEq] at h
+      rw [← h.1]
+      split
+      · exact share_rebind_inv _ i h1 h2 h3
+      · exact share_propagate_inv _ i h1 h2 h3
+    · rename_i hci
+      rw [hci, cohEx_none] at h3
+      simp only [Prod.mk.injEq] at h
+      rw [← h.1]
+      exact ⟨h1, h2, h3⟩
+
+
+/-- **In every world the driver can reach, grids on one `Coords` object have one identity**: whatever sequence of requests
+(constructors, copies and round trips, `on`, in-place operations through any holder, writes to the `Coords` object or to an
+accessor's array, rejected requests) is run from the empty world, two live grids that hold the same `Coords` object read the
+same coordinates; if they also have the same coordinate system they have the same hash input and (well-formed coordinates)
+are equal. -/
+theorem share_reachable_coherent (reqs : List (List String)) :
+    let s := reqs.foldl (fun s toks => match stepShare s toks with | some (s', _) => s' | none => s) ({} : SWorld)
+    ∀ (j k : Nat) (g h : Grid), s.cell[j]? = s.cell[k]? → s.cell[j]? ≠ none →
+      s.world.grids[j]? = some g → s.world.grids[k]? = some h →
+      g.coords = h.coords ∧ (g.system = h.system → g.hashInput = h.hashInput ∧ (g.coords.WF → g.eq h = true)) := by
+  have key : ∀ (reqs : List (List String)) (s : SWorld), s.Inv →
+      (reqs.foldl (fun s toks => match stepShare s toks with | some (s', _) => s' | none => s) s).Inv := by
+    intro reqs
+    induction reqs with
+    | nil => intro s hs; exact hs
+    | cons t ts ih =>
+      intro s hs
+      simp only [List.foldl_cons]
+      apply ih
+      cases h : stepShare s t with
+      | none => exact hs
+      | some r => exact share_step_inv s r.1 t r.2 hs (by rw [h])
+  intro s j k g h hjk hn hg hh
+  have hc := (key reqs {} inv_empty).coh j k g h hjk hn hg hh
+  refine ⟨hc, fun hs => ?_⟩
+  have hgh : g.hashInput = h.hashInput := by simp [Grid.hashInput, hs, hc]
+  refine ⟨hgh, fun hw => ?_⟩
+  have := eq_refl g hw
+  simpa [Grid.eq, hs, hc] using this
 
 /-- **One array passed for two axes is scaled / shifted once per axis**: the grid holds two
 independent copies, so the result is the same as for two separate equal arrays. -/
